@@ -136,6 +136,9 @@ structure Inst where
   cleanStates : AMap Topic (Nat × Bool) := AMap.empty
   /-- topics whose marker change has been sent to the persister but not yet written -/
   cleanPending : List Topic := []
+  /-- the index persists of the current operation, in order (every `WalIndex::set` rewrites the index
+  file: tmp write, fsync, rename); cleared by `step` before each operation; used by the crash model -/
+  idxLog : List (Topic × Pos) := []
   deriving Repr
 
 /-- What a directory keeps on disk besides WAL files. -/
@@ -176,6 +179,7 @@ inductive Out where
   | names (l : List Nat)
   | trk (s : Option FileTrk)
   | trks (l : List (Nat × Option FileTrk))   -- per WAL file of the directory: name, tracker tuple
+  | crashed                                  -- the process died inside the operation
   deriving Repr, DecidableEq
 
 def wrap16 (n : Nat) : Nat := n % 65536
